@@ -33,11 +33,21 @@ def _simulate(cfg):
         if R0:
             kw['initial_recovereds'] = R0
         kw['tmax'] = cfg.get('tmax', float('inf'))
-        return f(G, tau, gamma, initial_infecteds=I0, **kw), nodes
+        kw['initial_infecteds'] = I0
+        args = [G, tau, gamma]
+        if cfg.get('positional'):
+            from . import simrun
+            args, kw = simrun.positional(sim, args, kw)
+        return f(*args, **kw), nodes
     if sim in ('fast_SIS', 'Gillespie_SIS'):
         f = getattr(EoN, sim)
         kw['tmax'] = cfg['tmax']
-        return f(G, tau, gamma, initial_infecteds=I0, **kw), nodes
+        kw['initial_infecteds'] = I0
+        args = [G, tau, gamma]
+        if cfg.get('positional'):
+            from . import simrun
+            args, kw = simrun.positional(sim, args, kw)
+        return f(*args, **kw), nodes
     if sim == 'fast_nonMarkov_SIS_exp':
         ew = oracles.edge_weight_fn(cfg['gc'], cfg.get('ew'))
         nw = oracles.node_weight_fn(cfg['gc'], cfg.get('nw'))
